@@ -11,3 +11,4 @@ import ForsysModel.Props.C03matrix
 import ForsysModel.Props.C13relabel
 import ForsysModel.Props.C12relabel
 import ForsysModel.Props.C05bound
+import ForsysModel.Props.C03more
